@@ -51,6 +51,21 @@ impl Path {
     /// commands with an appropriate number of LineTo commands
     /// so that the error is not greater than `tolerance`.
     pub fn flatten(&self, tolerance: f32) -> Path {
+        if tolerance > 0. && tolerance < 1e-8 {
+            // lyon's flatteners need a tolerance of at least 1e-8 (they assert on it). A
+            // finer one is reached by flattening the path magnified by a power of two, with
+            // the tolerance magnified along, and shrinking the result again: scaling by a
+            // power of two is exact, so this is the same flattening (a tolerance too small
+            // even for that gets the finest flattening there is)
+            let mut scale = 1.0f32;
+            while tolerance * scale < 1e-8 && scale < 1e30 {
+                scale *= 2.;
+            }
+            let magnified = self.clone().transform(&Transform::scale(scale, scale));
+            return magnified
+                .flatten((tolerance * scale).max(1e-8))
+                .transform(&Transform::scale(1. / scale, 1. / scale));
+        }
         let mut cur_pt = None;
         // the start of the current subpath: where the current point returns to after Close
         let mut start_pt = None;
